@@ -180,7 +180,11 @@ func (w *World) RebootWith(arm func()) error {
 			n, err := st.NextLocalHtlcIndex()
 			w.R.Must(err, "NextLocalHtlcIndex")
 			if int(n) != w.Env.Next[ch] {
-				w.R.Harness("channel %d: NextLocalHtlcIndex=%d, harness expected %d", ch, n, w.Env.Next[ch])
+				// chanstate.OpenChannel.NextLocalHtlcIndex is the cut-off
+				// the circuit map trims with (an anchor of the property):
+				// it must be the local HTLC index of the newest remote
+				// commitment that was persisted (pending tip if any).
+				w.R.Fail("next-htlc-index", "channel %d reloaded from disk: NextLocalHtlcIndex=%d, but the newest persisted remote commitment (pending tip: %v) covers local HTLC ids below %d", ch, n, w.pendingTip[ch], w.Env.Next[ch])
 			}
 		}
 	}
@@ -305,13 +309,15 @@ func (w *World) describeCircuit(c *htlcswitch.PaymentCircuit, wantKey int) strin
 	if known, ok := w.objs[c]; ok && known != obj {
 		bad = "OBJECT-MUTATED"
 	}
-	if _, ok := w.objs[c]; !ok && !c.LoadedFromDisk {
-		bad = "FOREIGN-OBJECT"
-	}
 	if bad != "" {
 		return bad
 	}
 	s := fmt.Sprintf("#%d", obj)
+	if _, ok := w.objs[c]; !ok && !c.LoadedFromDisk {
+		// neither the object the caller committed in this epoch nor marked
+		// as restored from disk
+		s += "(unmarked-copy)"
+	}
 	if c.Outgoing != nil {
 		ok := w.okOfKey(*c.Outgoing)
 		if ok < 0 {
